@@ -185,24 +185,196 @@ def generate(rnd, profile):
     return Gen(rnd, profile).program()
 
 
+# --- profile "effects": straight-line programs in which (almost) every sub-expression has an effect ----
+N_C, N_D, N_M, N_P, N_AR, N_MK = 12, 4, 3, 4, 2, 2
+
+
+def _fx_header():
+    out = ['from collections.abc import Callable', 'from guppylang import guppy',
+           'from guppylang.std.builtins import result, array, owned', '', '',
+           '@guppy', 'def add(x: int, y: int) -> int:', '    return x + y', '', '',
+           '@guppy', 'def sub(x: int, y: int) -> int:', '    return x - y', '', '']
+    for k in range(1, N_C + 1):
+        out += ['@guppy', f'def c{k}(v: int) -> int:', f'    result("c{k}", v)', f'    return v + {k}', '', '']
+    for k in range(1, N_D + 1):
+        out += ['@guppy', f'def d{k}(v: int, w: int) -> int:', f'    result("d{k}", v)', f'    return v * {k} - w', '', '']
+    for k in range(1, N_M + 1):
+        out += ['@guppy', f'def m{k}() -> Callable[[int, int], int]:', f'    result("m{k}", 0)',
+                f'    return {"add" if k % 2 else "sub"}', '', '']
+    for k in range(1, N_P + 1):
+        out += ['@guppy', f'def p{k}() -> int:', f'    result("p{k}", 0)', f'    return {k % 2}', '', '']
+    for k in range(1, N_AR + 1):
+        out += ['@guppy', f'def ar{k}(v: int) -> array[int, 3]:', f'    result("ar{k}", v)', '    return array(v, v + 1, v + 2)', '', '']
+    out += ['@guppy.struct', 'class S:', '    x: int', '    y: int', '',
+            '    @guppy', '    def get(self: "S", k: int) -> int:', '        result("get", k)', '        return self.x + k', '',
+            '    @guppy', '    def get2(self: "S", k: int, j: int) -> int:', '        result("get2", k)', '        return self.y + k - j', '', '']
+    for k in range(1, N_MK + 1):
+        out += ['@guppy', f'def mk{k}(v: int) -> S:', f'    result("mk{k}", v)', f'    return S(v, v + {k})', '', '']
+    return "\n".join(out) + "\n"
+
+
+FX_HEADER = _fx_header()
+
+
+class GenFx:
+    """Every call site gets a fresh helper (c1.., d1.., m1.., p1.., ar1.., mk1..) while the pools last, so
+    a misordering is visible in the labels.  Kept out on purpose (known deviations, exact programs in the
+    corpus): a subscript whose container AND index both have effects, nested subscripts with two effectful
+    indices, augmented assignment to a subscript with an effectful index, lifted sub-expressions."""
+
+    def __init__(self, rnd):
+        self.r = rnd
+        self.n = {"c": 0, "d": 0, "m": 0, "p": 0, "ar": 0, "mk": 0}
+        self.lim = {"c": N_C, "d": N_D, "m": N_M, "p": N_P, "ar": N_AR, "mk": N_MK}
+        self.tag = 0
+        self.ints = ["a", "b"]
+        self.arrs, self.structs, self.fvs = [], [], []
+
+    def fresh(self, kind):
+        self.n[kind] = self.n[kind] % self.lim[kind] + 1
+        return f"{kind}{self.n[kind]}"
+
+    def leaf(self):
+        return self.r.choice(self.ints + [str(self.r.randint(0, 9))])
+
+    def e(self, d):
+        r = self.r
+        if d <= 0:
+            return self.leaf()
+        k = r.random()
+        if k < 0.20:
+            return f"{self.fresh('c')}({self.e(d - 1)})"
+        if k < 0.30:
+            f = self.fresh('d')
+            return f"{f}({self.e(d - 1)}, {self.e(d - 1)})"
+        if k < 0.40:
+            f = self.fresh('m')
+            return f"{f}()({self.e(d - 1)}, {self.e(d - 1)})"
+        if k < 0.47:
+            f = self.fresh('p')
+            return f"fs[{f}()]({self.e(d - 1)}, {self.e(d - 1)})"
+        if k < 0.52 and self.fvs:
+            return f"{r.choice(self.fvs)}({self.e(d - 1)})"
+        if k < 0.60:
+            f = self.fresh('mk')
+            return f"{f}({self.e(d - 1)}).{r.choice(['get(' + self.e(d - 1) + ')', 'get2(' + self.e(d - 1) + ', ' + self.e(d - 1) + ')', 'x', 'y'])}"
+        if k < 0.65 and self.structs:
+            return f"{r.choice(self.structs)}.get({self.e(d - 1)})"
+        if k < 0.70:
+            return f"S({self.e(d - 1)}, {self.e(d - 1)}).get({self.e(d - 1)})"
+        if k < 0.76:
+            f = self.fresh('ar')
+            return f"{f}({self.e(d - 1)})[{r.choice(['0', '1', '2', 'a % 3'])}]"
+        if k < 0.82 and self.arrs:
+            return f"{r.choice(self.arrs)}[{self.e(d - 1)} % 3]"
+        if k < 0.90:
+            return f"({self.e(d - 1)} {r.choice(['+', '-', '*'])} {self.e(d - 1)})"
+        if k < 0.94:
+            return f"(-{self.e(d - 1)})"
+        return f"({self.e(d - 1)}, {self.e(d - 1)})[{r.choice([0, 1])}]"
+
+    def fresh_tag(self):
+        self.tag += 1
+        return f"t{self.tag}"
+
+    def stmt(self, d):
+        r = self.r
+        k = r.random()
+        if k < 0.25:
+            return [f'result("{self.fresh_tag()}", {self.e(d)})']
+        if k < 0.33:
+            return [f'result("{self.fresh_tag()}", {self.e(d)} {r.choice(["<", "==", ">=", "!="])} {self.e(d - 1)})']
+        if k < 0.48:
+            v = f"x{len(self.ints)}"
+            s = [f"{v} = {self.e(d)}"]
+            self.ints.append(v)
+            return s
+        if k < 0.56 and len(self.ints) > 2:
+            return [f"{r.choice(self.ints[2:])} {r.choice(['+=', '-=', '*='])} {self.e(d)}"]
+        if k < 0.66:
+            v = f"xs{len(self.arrs)}"
+            s = [f"{v} = array({self.e(d)}, {self.e(d - 1)}, {self.e(d - 1)})"]
+            self.arrs.append(v)
+            return s
+        if k < 0.73 and self.arrs:
+            return [f"{r.choice(self.arrs)}[{self.e(d - 1)} % 3] = {self.e(d)}"]
+        if k < 0.78 and self.arrs:
+            return [f"{r.choice(self.arrs)}[{self.leaf()} % 3] += {self.e(d)}"]
+        if k < 0.85:
+            v = f"s{len(self.structs)}"
+            s = [f"{v} = S({self.e(d)}, {self.e(d - 1)})"]
+            self.structs.append(v)
+            return s
+        if k < 0.91:
+            v = f"fv{len(self.fvs)}"
+            s = [f"{v} = {self.fresh('c')}"]
+            self.fvs.append(v)
+            return s
+        v = f"x{len(self.ints)}"
+        s = [f"{v}, _u{len(self.ints)} = ({self.e(d)}, {self.e(d - 1)})"]
+        self.ints.append(v)
+        return s
+
+    def program(self):
+        body = ["    fs = array(add, sub)"]
+        d = self.r.randint(1, 3)
+        for _ in range(self.r.randint(2, 5)):
+            body += ["    " + s for s in self.stmt(d)]
+        body.append(f"    return {self.e(2)}")
+        return FX_HEADER + "@guppy\ndef main(a: int, b: int, c: bool) -> int:\n" + "\n".join(body) + "\n"
+
+
+def generate(rnd, profile):
+    if profile == "effects":
+        return GenFx(rnd).program()
+    return Gen(rnd, profile).program()
+
+
 # --- Python's evaluation order of the side effects of a straight-line `main` ----------------
-EFFECT_FUNCS = {"g1": "call:g1", "g2": "call:g2", "g3": "call:g3", "gb": "call:gb", "qubit": "QAlloc",
-                "measure": "MeasureFree", "discard": "QFree", "panic": "panic", "exit": "exit",
+EFFECT_FUNCS = {"qubit": "QAlloc", "measure": "MeasureFree", "discard": "QFree", "panic": "panic", "exit": "exit",
                 "maybe_qubit": "TryQAlloc"}
-PURE_FUNCS = {"h", "x", "project_z", "reset", "array", "range"}
+PURE_FUNCS = {"h", "x", "project_z", "reset", "array", "range", "S"}     # no call node: gates, constructors
 
 
 class Unsupported(Exception):
     pass
 
 
+def _is_array_value(e):
+    """does a subscript on `e` go through the bounds-checked array __getitem__/__setitem__?"""
+    if isinstance(e, ast.Name):
+        return e.id.startswith(("xs", "ys", "fs", "xss"))
+    if isinstance(e, ast.Call) and isinstance(e.func, ast.Name):
+        return e.func.id.startswith("ar") or e.func.id == "array"
+    if isinstance(e, ast.Subscript):
+        return _is_array_value(e.value)
+    return False
+
+
 def expected_effects(src):
-    """Effects of `main` in Python's evaluation order (language reference 6.16: operands left to
-    right, arguments before the call, right-hand side before the assignment targets, the
-    subscript of an augmented assignment evaluated once).  Array subscripts are bounds-checked:
-    a load or store through `xs[i]` contributes `bounds`."""
+    """Effects of `main` in Python's evaluation order, from the language reference alone (6.16
+    "Evaluation order": operands left to right; the callee expression, then the arguments left to right,
+    then the call; a subscription evaluates the container, then the index; an assignment evaluates the
+    right-hand side, then the targets left to right, each target's container then index; an augmented
+    assignment evaluates the target's container and index once, then the right-hand side).
+    Labels: `call:<function>`, `CallIndirect` (call of a function value), `result:<tag>`, QAlloc / QFree /
+    MeasureFree / TryQAlloc / panic, and `bounds` for the bounds check of an array load or store and for
+    `Option.unwrap`."""
     fn = [n for n in ast.parse(src).body if isinstance(n, ast.FunctionDef) and n.name == "main"][0]
     out = []
+    fvals = set()          # local names bound to function values
+
+    def call_name(f, args):
+        if f == "result":
+            ev(args[1]); out.append("result:" + args[0].value); return
+        for a_ in args:
+            ev(a_)
+        if f in fvals:
+            out.append("CallIndirect")
+        elif f in EFFECT_FUNCS:
+            out.append(EFFECT_FUNCS[f])
+        elif f not in PURE_FUNCS:
+            out.append("call:" + f)
 
     def ev(e):
         if isinstance(e, (ast.Constant, ast.Name)):
@@ -217,24 +389,29 @@ def expected_effects(src):
             for x_ in e.elts:
                 ev(x_)
             return
+        if isinstance(e, ast.Attribute):
+            ev(e.value); return
         if isinstance(e, ast.Subscript):
             ev(e.value); ev(e.slice)
-            if not isinstance(e.value, ast.Tuple):
+            if _is_array_value(e.value):
                 out.append("bounds")
             return
-        if isinstance(e, ast.Call) and isinstance(e.func, ast.Attribute) and e.func.attr == "unwrap" and not e.args:
-            ev(e.func.value); out.append("bounds"); return        # Option.unwrap panics on nothing
-        if isinstance(e, ast.Call) and isinstance(e.func, ast.Name):
-            f = e.func.id
-            if f == "result":
-                ev(e.args[1]); out.append("result:" + e.args[0].value); return
+        if isinstance(e, ast.Call):
+            if e.keywords:
+                raise Unsupported("keywords")
+            if isinstance(e.func, ast.Name):
+                call_name(e.func.id, e.args); return
+            if isinstance(e.func, ast.Attribute):
+                ev(e.func.value)
+                if e.func.attr == "unwrap" and not e.args:
+                    out.append("bounds"); return          # Option.unwrap panics on nothing
+                for a_ in e.args:
+                    ev(a_)
+                out.append("call:" + e.func.attr); return
+            ev(e.func)                                     # callee expression first
             for a_ in e.args:
                 ev(a_)
-            if f in EFFECT_FUNCS:
-                out.append(EFFECT_FUNCS[f])
-            elif f not in PURE_FUNCS:
-                raise Unsupported(f)
-            return
+            out.append("CallIndirect"); return
         raise Unsupported(ast.dump(e)[:60])
 
     def target(t):
@@ -252,6 +429,9 @@ def expected_effects(src):
         if isinstance(s, ast.Expr):
             ev(s.value)
         elif isinstance(s, ast.Assign):
+            if (len(s.targets) == 1 and isinstance(s.targets[0], ast.Name) and isinstance(s.value, ast.Name)
+                    and s.targets[0].id.startswith("fv")):
+                fvals.add(s.targets[0].id)
             ev(s.value)
             for t in s.targets:
                 target(t)
